@@ -240,6 +240,26 @@ def run(ctx):
                                    ("noodles_bed::record::fields::bounds::Bounds", "other_fields_ends")], "the extra-column bounds")):
             a10.field_reset_rule(ctx, "C18.R7", "noodles_bed::io::reader::record::read_record_%d" % n_, 2, owner_path, what)
 
+    ctx.rule("C18.R8", "A4 numeric columns are formatted from their own type: no unproven narrowing `as` cast (int -> smaller int, float -> int: "
+                       "saturating, drops the fraction) in the GFF / GTF / BED writers")
+    from .. import a4
+    n8 = 0
+    for s8 in a4.narrowing_casts(fb, lambda k_, f_: bool(re.match(r"<?noodles_(gff|gtf|bed)::(io::writer|r#async::io::writer)", k_))):
+        n8 += 1
+        f8 = fb.fns[s8["fn"]]
+        ctx.saw_fn(f8)
+        if s8["discharged"]:
+            ctx.ok("C18.R8", "%s %s->%s" % (s8["root"], s8["frm"], s8["to"]), "proven: " + s8["discharged"], "%s:%d" % (f8.file, s8["line"]))
+        else:
+            ctx.violation("C18.R8", "C18.R8/narrowing-cast/%s/%s->%s" % (s8["root"], s8["frm"], s8["to"]),
+                          "%s converts %s to %s with `as` on the way to the output: the cast saturates / truncates silently, so a value outside "
+                          "the target range is written as a different number and does not parse back" % (s8["root"], s8["frm"], s8["to"]),
+                          "%s:%d" % (f8.file, s8["line"]))
+    ctx.count("narrowing_casts_in_text_writers", n8)
+    total_casts = sum(1 for f_ in fb.fns.values() if f_.blocks for blk in f_.blocks if not blk.get("cu") for st in blk["s"]
+                      if st[0] == "=" and st[2][0] == "cast" and st[2][1] in ("IntToInt", "FloatToInt"))
+    ctx.floor("C18.R8", "`as` casts seen workspace-wide (positive control of the matcher; none in these writers today)", total_casts, 100)
+
     ctx.rule("C18.R4", "owned GFF record is built from the lazy accessors (shared path)")
     fc = ctx.anchor("C18.R4", "noodles_gff::feature::record_buf::convert::<impl noodles_gff::feature::record_buf::RecordBuf>::try_from_feature_record")
     if fc is not None:
